@@ -4,6 +4,7 @@ CONSTANTS
   Vals = {0}
   INF = 1000000
   MaxDim = 3
+  AssignInf = FALSE
   FlagDims = {3}
   Mode = "all"
 VIEW View
